@@ -735,6 +735,25 @@ func (w *evmSeq) history(hid int64, shapeIdx int) {
 		}
 		h.sig = append(h.sig, "flood")
 	}
+	if na >= 3 && w.lim >= 8 && rng.Intn(6) == 0 {
+		// promotion at capacity: pending four short of its limit, then one commit that makes the
+		// waiting successors of two accounts executable at once (3 + 3 candidates for 4 places)
+		for n := w.lim - 5; n >= 1; n-- {
+			h.submit(h.newTx(0, uint64(n), kNormal), "gap")
+		}
+		h.submit(h.newTx(0, 0, kNormal), "head")
+		ta, tb := h.newTx(1, 0, kNormal), h.newTx(2, 0, kNormal)
+		h.submit(ta, "head")
+		h.submit(tb, "head")
+		for n := uint64(1); n <= 3; n++ {
+			h.submit(h.newTx(1, n, kNormal), "next")
+			h.submit(h.newTx(2, n, kNormal), "next")
+		}
+		h.reap(-1, "")
+		h.commit([]int{ta.ID, tb.ID}, "subset")
+		h.sig = append(h.sig, "promotion-at-capacity")
+		run.Count("histories_promotion_at_capacity", 1)
+	}
 	for i := 0; i < nops; i++ {
 		op := pickWeighted(rng, sh.w[:])
 		h.step(op)
